@@ -157,6 +157,44 @@ def synth_link(name, serial, bs0=64, bs1=128, npk=40, ch=1, rate=8000, ppp=4, pa
     return path, {'file': path, 'rate': rate, 'ch': ch, 'n': total, 'serial': serial, 'goff': 0, 'tag': name, 'packets': npk, 'pages': len(pages), 'bytes': len(blob), 'bs0': bs0, 'bs1': bs1, 'synth': True}
 
 
+def front_trimmed(kind, serial, K=62):
+    """Encoder-made link re-paged so that its first audio page holds the first two audio packets and every granule position is pulled back
+    by K samples: the first page's granule position is smaller than what its packets decode to, so the decoder must discard K samples at the
+    start (what stream cutters produce).  Length = n - K."""
+    p, m = link(kind, serial, 'flush')
+    pg = parse_pages(open(p, 'rb').read())
+    pk = packets_of(pg, m['serial'])
+    hdr, aud = pk[:3], pk[3:]
+    assert all(g != -1 for (_, g, _, _) in aud)
+    out = [x for x in pg if x.offset < pg[aud[0][2]].offset]            # header pages as they are
+    seq = out[-1].seq + 1
+    def lace(b):
+        l = []
+        n = len(b)
+        while n >= 255:
+            l.append(255); n -= 255
+        l.append(n)
+        return l
+    groups = [aud[0:2]] + [[a] for a in aud[2:]]
+    for gi, grp in enumerate(groups):
+        body = b''.join(a[0] for a in grp)
+        lac = sum((lace(a[0]) for a in grp), [])
+        g = max(0, grp[-1][1] - K)
+        out.append(Page(4 if gi == len(groups) - 1 else 0, g, m['serial'], seq, lac, body))
+        seq += 1
+    blob = b''.join(x.encode() for x in out)
+    name = f'T_{kind}_{serial}_{K}'
+    path = write_file(name + '.ogg', blob)
+    m = dict(m)
+    m.update({'file': path, 'bytes': len(blob), 'n': m['n'] - K, 'pages': len(out), 'trim': K})
+    return path, m
+
+
+def halfrate_extra_files():
+    """front-trimmed links (start discard interacts with the half-rate sample shift)"""
+    return {'FT': chain('FT', [front_trimmed('A', 951, 62), front_trimmed('B', 952, 30), link('A', 953, '3')])}
+
+
 def halfrate_refusal_files():
     """streams on which ov_halfrate(vf,1) must be refused: some link has 64-sample short blocks"""
     out = {}
